@@ -4,6 +4,7 @@
   theorems of C08). The hash functions are arbitrary (`hs : Hashes`); the selected network is the
   argument `net`. Strings are byte strings.
 -/
+import BtcVerif.Props.GuardPins.P_address
 import BtcVerif.Proofs.Address
 import BtcVerif.Proofs.AddressSegwit
 import BtcVerif.Proofs.AddressRef
